@@ -13,6 +13,9 @@ UNITS = [
     Kani(MR + 'c20_peer_cache_full_unrelated', fns=[Fn(R, 'add_command', r'impl PeerCache')], kind='bounded',
          bound='full cache (10 entries, symbolic max cuts), new command unrelated to all',
          contract='full cache + unrelated committed command: nothing is removed, the cache keeps its ten entries', **RT),
+    Kani(MR + 'c20_peer_cache_merge_replaces_both_parents', fns=[Fn(R, 'add_command', r'impl PeerCache')], kind='bounded',
+         bound='cache of 2 entries, both ancestors of the new command, either one exactly one max cut below it',
+         contract='recording a merge whose two parents are cached removes both and records the merge: no entry stays next to a descendant', **RT),
     Kani(MR + 'c20_peer_cache_add_len02', fns=[Fn(R, 'add_command', r'impl PeerCache')], kind='bounded', bound='cache of 2 entries', covers=2, cap_s=2400,
          tiers=('thorough',), contract=CON, **RT),
 ]
